@@ -220,7 +220,7 @@ package topics
 //@   ensures typeis(pb, *Node) ==> (forall r *Node :: {r.#tree} old(allocated(r)) && r != unbox(pb, *Node) ==> r.#tree == old(r.#tree) && r.Buf == old(r.Buf) && r.Children == old(r.Children))
 //@   ensures err != nil && typeis(pb, *Node) ==> (forall r *Node :: {r.#tree} !old(allocated(r)) || r == unbox(pb, *Node) ==> r.#tree == old(r.#tree))
 //@   ensures typeis(pb, *Node) ==> tt_wf0(nil)
-//@   modifies newobjs(unbox(pb, *Node)), newmaps(unbox(pb, *Node).Children), newrows(bytes)
+//@   modifies when pb is *Node: newobjs(unbox(pb, *Node)), when pb is *Node: newmaps(unbox(pb, *Node).Children), newrows(bytes)
 
 //@ func NewTree() (r Store)
 //@   requires tt_wf0(nil)
